@@ -21,7 +21,7 @@ func init() {
 			"on the path where a different report arrives for an occupied slot the constant 1 is stored; PRED the capacity ban is taken exactly when PowerOutput > Capacity*135/100 and PowerOutput <= 2^63-1 (compared cell by cell at limit, limit+1, 2^63-2, 2^63-1, 2^63, 2^64-1), " +
 			"MaxCapacityBuffer is 135 in every configuration; RECORD every path that stores into the slot also appends the report to the recent list and calls the report saver. " +
 			"Order-independence and 'a function of the set of reports' follow from these by a four-state argument (empty / holds r / banned; ban absorbing; replay idempotent); the checker decides the listed structural facts, not that argument. " +
-			"the statistics builder publishes, for entry i of a week, slot x+i of that week (C03 builder rules, re-run), and a restart replays every persisted report through this integrator without skipping another device's records (C04 loader rules, re-run). NOT decided: behaviour over long histories as such; Capacity*135 wrap-around for capacities above 2^64/135 (reported as a note).",
+			"the statistics builder publishes, for entry i of a week, slot x+i of that week (C03 builder rules, re-run), and a restart replays every persisted report through this integrator without skipping another device's records (C04 loader rules, re-run). Every device gets a report window and an impact-rate window of its own (the allocation sits inside every loop that contains the store). NOT decided: behaviour over long histories as such; Capacity*135 wrap-around for capacities above 2^64/135 (reported as a note).",
 		Assumptions: baseAssumptions,
 		Run:         runC02,
 	})
@@ -241,20 +241,31 @@ func runC02(c *an.Ctx) {
 		if s.whole || !isConstTerm(s.val, "1") {
 			continue
 		}
-		for _, f := range fi.FactsAt(s.st) {
-			t := f.T
-			if !f.Neg && t.K == an.KBin && t.S == "!=" {
-				for i := 0; i < 2; i++ {
-					if k, isC := t.A[i].IsConst(); isC && k == "0" && isSlotField(t.A[1-i], "PowerOutput") {
-						occupiedBan = true
+		for _, alt := range fi.GuardAlternatives(s.st) {
+			for _, f := range alt {
+				t := f.T
+				if !f.Neg && t.K == an.KBin && t.S == "!=" {
+					for i := 0; i < 2; i++ {
+						if k, isC := t.A[i].IsConst(); isC && k == "0" && isSlotField(t.A[1-i], "PowerOutput") {
+							occupiedBan = true
+						}
 					}
 				}
 			}
 		}
 	}
-	c.Check(occupiedBan, "STORE", integ, integ.Pos(), an.KeyOf(integ, "second-report-bans"), "a different valid report for an occupied slot stores the ban sentinel (two distinct reports ban the slot, in either order)", "store of 1 under slot.PowerOutput != 0")
+	banFacts := ""
+	if !occupiedBan {
+		for _, s := range stores {
+			if !s.whole && isConstTerm(s.val, "1") {
+				banFacts += "; ban store under " + factList(fi.FactsAt(s.st))
+			}
+		}
+	}
+	c.Check(occupiedBan, "STORE", integ, integ.Pos(), an.KeyOf(integ, "second-report-bans"), "a different valid report for an occupied slot stores the ban sentinel (two distinct reports ban the slot, in either order)", "store of 1 under slot.PowerOutput != 0"+banFacts)
 
 	capacityPredicate(c, integ, R)
+	freshWindows(c)
 
 	// RECORD: every slot store is followed by the recent-list append and the saver call
 	var recentStore, saveCall ssa.Instruction
@@ -295,8 +306,8 @@ func runC02(c *an.Ctx) {
 		isRet := func(in ssa.Instruction) bool { _, ok := in.(*ssa.Return); return ok }
 		for _, s := range stores {
 			key := an.KeyOf(integ, "record:"+short(s.val.Key()))
-			c.Check(mustPassThrough(s.st, recentStore, isRet), "RECORD", integ, s.st.Pos(), key+":recent", "every path from a slot store to the return appends the report to the recent list", "append at "+p.Pos(recentStore.Pos()))
-			c.Check(mustPassThrough(s.st, saveCall, isRet), "RECORD", integ, s.st.Pos(), key+":save", "every path from a slot store to the return hands the report to the report saver (evidence of a ban is kept too)", "saver call at "+p.Pos(saveCall.Pos()))
+			c.Check(mustPassThrough(s.st, recentStore, isRet) || execBefore(recentStore, s.st), "RECORD", integ, s.st.Pos(), key+":recent", "every path from a slot store to the return appends the report to the recent list (or has appended it on the way to the store)", "append at "+p.Pos(recentStore.Pos()))
+			c.Check(mustPassThrough(s.st, saveCall, isRet) || execBefore(saveCall, s.st), "RECORD", integ, s.st.Pos(), key+":save", "every path from a slot store to the return hands the report to the report saver (evidence of a ban is kept too)", "saver call at "+p.Pos(saveCall.Pos()))
 		}
 		// and nothing is recorded without a slot decision: the append is dominated by not-banned and not-duplicate
 		facts := fi.FactsAt(recentStore)
@@ -370,19 +381,24 @@ func capacityPredicate(c *an.Ctx, integ *ssa.Function, R *an.Term) {
 	// find the store of 1 whose facts mention Capacity
 	var site *ssa.Store
 	var capT *an.Term
+	var siteFacts an.FactSet
 	for _, b := range integ.Blocks {
 		for _, in := range b.Instrs {
 			st, ok := in.(*ssa.Store)
 			if !ok || !isConstTerm(fi.Term(st.Val), "1") {
 				continue
 			}
-			for _, f := range fi.FactsAt(st) {
-				f.T.Walk(func(t *an.Term) {
-					if t.K == an.KField && t.S == "Capacity" {
-						capT = t
-						site = st
-					}
-				})
+			// (a store behind a flag that several reasons set: the way on which the capacity comparison set it)
+			for _, alt := range fi.GuardAlternatives(st) {
+				for _, f := range alt {
+					f.T.Walk(func(t *an.Term) {
+						if t.K == an.KField && t.S == "Capacity" {
+							capT = t
+							site = st
+							siteFacts = alt
+						}
+					})
+				}
 			}
 		}
 	}
@@ -394,7 +410,7 @@ func capacityPredicate(c *an.Ctx, integ *ssa.Function, R *an.Term) {
 	// the capacity must be that of the same device
 	okDev := capT.A[0].K == an.KLookup && capT.A[0].A[1].Key() == fi.FieldOfTerm(R, "ShortID").Key()
 	c.Check(okDev, "PRED", integ, site.Pos(), key+":device", "the capacity used is that of the reporting device (equipment[r.ShortID].Capacity)", short(capT.Key()))
-	rel := an.RelevantFacts(fi.FactsAt(site), map[string]bool{po.Key(): true, capT.Key(): true})
+	rel := an.RelevantFacts(siteFacts, map[string]bool{po.Key(): true, capT.Key(): true})
 	var grid []map[string]*big.Int
 	for _, cs := range []string{"0", "1", "100", "1000", "123456789", "2^40"} {
 		capV := an.Big(cs)
@@ -423,4 +439,59 @@ func capacityPredicate(c *an.Ctx, integ *ssa.Function, R *an.Term) {
 		c.Proved("PRED", integ, site.Pos(), key, "the capacity ban is taken exactly when PowerOutput > Capacity*135/100 and PowerOutput <= 2^63-1", fmt.Sprintf("%d cells compared; guards: %s", pts, factsText(rel)))
 	}
 	c.Note("PRED", integ, site.Pos(), key+":overflow", "Capacity*135 is computed in uint64 and wraps for capacities above 2^64/135 (1.3e17 mWh per slot); not covered by the property's domain")
+}
+
+// execBefore: a is executed on every path from the function entry to b (a's block dominates b's, or a precedes b in
+// their common block).
+func execBefore(a, b ssa.Instruction) bool {
+	if a.Block() == b.Block() {
+		return an.InstrIndex(a) < an.InstrIndex(b)
+	}
+	return a.Block().Dominates(b.Block())
+}
+
+// freshWindows: the report window (and the impact-rate window) installed for a device is an array of its own: the
+// allocation that is stored under the device's id happens once per store - inside every loop that contains the store -
+// so no two devices share their slots ("reports for one device never affect another").
+func freshWindows(c *an.Ctx) {
+	p := c.P
+	n := 0
+	for _, fn := range p.FuncsIn("server") {
+		fi := p.Info(fn)
+		for _, b := range fn.Blocks {
+			for _, in := range b.Instrs {
+				mu, ok := in.(*ssa.MapUpdate)
+				if !ok {
+					continue
+				}
+				f, isF := fi.RefClass(mu.Map).FieldOf("GCAServer")
+				if !isF || (f != "equipmentReports" && f != "equipmentImpactRate") {
+					continue
+				}
+				n++
+				// the allocation, or the call of a helper that returns one
+				var def ssa.Instruction
+				switch x := mu.Value.(type) {
+				case *ssa.Alloc:
+					def = x
+				case *ssa.Call:
+					def = x
+				}
+				key := an.KeyOf(fn, "fresh-window:"+f)
+				if def == nil {
+					c.Violated("ADDR", fn, mu.Pos(), key, "the window stored for a device is not a fresh allocation (it may be shared with another device)", "value "+short(fi.Term(mu.Value).Key()))
+					continue
+				}
+				okLoops := true
+				for _, l := range loopsOf(fn) {
+					if l.body[mu.Block()] && !l.body[def.Block()] {
+						okLoops = false
+					}
+				}
+				c.Check(okLoops, "ADDR", fn, mu.Pos(), key, "every device gets a window of its own: the array is allocated once per store (inside every loop that contains the store)", "allocation at "+p.Pos(def.Pos()))
+			}
+		}
+	}
+	c.Count("ADDR-fresh", n)
+	c.Floor("ADDR-fresh", 2)
 }
